@@ -22,9 +22,12 @@ tvars == <<m, d, t, l>>
 s == Log[t].s
 e == Ev(t)[l]
 TraceInit == /\ RegInit /\ t \in 1..NTraces /\ l = 1 /\ m = Start0
-             /\ d \in (DialectsFor(Log[t].s) \cap DialectFilter)
+             /\ d \in {Pin(D, Log[t].s) : D \in DialectFilter}
 Adv == l' = l + 1 /\ t' = t /\ d' = d
-C(id, cond) == Check(t, l, id, cond)
+\* the diagnostic names the clause that fails under the reading the code follows (LibDialect) whenever
+\* that reading is admitted; the verdict is unaffected (some dialect must explain the whole trace)
+Quiet == LibDialect \in DialectFilter
+C(id, cond) == IF cond THEN TRUE ELSE IF Quiet /\ d # LibDialect THEN FALSE ELSE Fail(t, l, id)
 Texty(k) == k \in {"IDENTIFIER", "QUOTED_STRING", "COMMENT"}
 LineOk(m1, line) == line = LineOf(m1, s) \/ (~StrictLine /\ line = LineAhead(m1, s))
 
